@@ -94,7 +94,14 @@ def check_copy_independence(ctx, tree, case):
     ctx.count("copy_disjointness_checks")
     # cross-mutation independence: edit the copy, the original must not move
     before = canon.fingerprint(tree)
-    txt = tree.sql()
+
+    def _txt():
+        try:
+            return tree.sql()
+        except Exception as e:   # a tree the base dialect cannot write (C05's subject): the fingerprint still decides
+            return "raises " + type(e).__name__
+
+    txt = _txt()
     for n in list(c.walk()):
         if isinstance(n, exp.Literal):
             n.set("this", "99")
@@ -105,7 +112,7 @@ def check_copy_independence(ctx, tree, case):
         n.meta["edited"] = True
     for n in list(c.find_all(exp.Column))[:1]:
         n.replace(exp.column("replaced"))
-    if canon.fingerprint(tree) != before or tree.sql() != txt:
+    if canon.fingerprint(tree) != before or _txt() != txt:
         ctx.violation("edit-of-copy-changes-original", {"sql": case["sql"]}, case)
     ctx.count("cross_mutation_checks")
 
@@ -197,11 +204,61 @@ def _first_diff(a, b):
     return "?"
 
 
+def harvested_trees(ctx):
+    """dialect-specific trees (harvested vocabulary, gen/harvest.py): generating in the tree's own dialect, in two other
+    dialects and pretty, copying and transforming must leave the tree untouched - this is where the dialect generators'
+    own rewrites (pop / replace / set inside *_sql methods) run"""
+    import sqlglot
+    from sqlglot import exp
+    from ..common import dialect_names, guarded
+    from ..gen.harvest import harvested
+
+    names = [d for d in dialect_names() if d]
+    stride = 4 if ctx.tier == "quick" else 1
+    k = 0
+    for di, d in enumerate(names):
+        texts, found = harvested(d)
+        for ti, s in enumerate(texts):
+            k += 1
+            if k % ctx.nshards != ctx.shard or (ti + di) % stride:
+                continue
+            if ctx.expired():
+                return
+            st, tree = guarded(lambda: sqlglot.parse_one(s, read=d), len(s) // 3 + 10)
+            if st != "ok" or tree is None:
+                continue
+            ctx.count("harvested_trees")
+            case = {"sql": s, "dialect": d}
+            fp0 = canon.fingerprint(tree)
+            targets = [d, names[(di * 5 + ti) % len(names)], names[(di * 11 + ti * 7 + 3) % len(names)]]
+            calls = [(f"sql:{t}", (lambda t=t: tree.sql(dialect=t))) for t in targets]
+            calls.append(("sql:pretty", lambda: tree.sql(dialect=d, pretty=True, identify=True)))
+            calls.append(("transform(copy=True)", lambda: tree.transform(lambda n: n)))
+            calls.append(("dump", lambda: tree.dump()))
+            for name, fn in calls:
+                st, _ = guarded(fn, len(s) // 3 + 30)
+                ctx.count("evaluations")
+                ctx.count("api_calls")
+                if st == "budget":
+                    continue
+                fp1 = canon.fingerprint(tree)
+                if fp1 != fp0:
+                    what = _first_diff(fp0, fp1)
+                    api = name.split(":")[0] if name.startswith("sql:") else name
+                    ctx.violation(f"argument-mutated:{api}:{what}", {"sql": s, "dialect": d, "api": name, "diff": what}, case)
+                    fp0 = fp1
+                else:
+                    ctx.nt([s, d, name])
+            if ti % 5 == 0:
+                check_copy_independence(ctx, tree, case)
+
+
 def worker(ctx):
     for i in ctx.mine(SPEC[ctx.tier]["statements"]):
         if ctx.expired():
             break
         run_case(ctx, i)
+    harvested_trees(ctx)
 
 
 def conclude(agg):
